@@ -155,10 +155,8 @@ theorem flushDb_noDeadlines (s s' : State) (i : Nat) (h : s.NoDeadlines) (hx : f
     intro j k e hl
     by_cases hj : j = i
     · subst hj
-      rw [lookup_put_same] at hl
-      simp at hl
-    · unfold State.lookup at hl
-      rw [db_put_other s i j _ hj] at hl
+      simp [State.lookup, State.db] at hl
+    · simp only [State.lookup, State.db, NMap.get_put_other _ _ _ _ (Ne.symm hj)] at hl
       exact h _ _ _ hl
 
 theorem KMap.get_map_exp (f : Bytes × Entry → Bytes × Entry) (hf : ∀ x, (f x).1 = x.1 ∧ (f x).2.exp = x.2.exp)
